@@ -350,6 +350,7 @@ func (c *checker) pair(p *pairCtx, wr **mvsfake.World) {
 		}
 	}
 	firstOK := false
+	wrongDir := "" // a (directory, revision) that was downloaded although no reachable node lives there
 	for ri := range runs {
 		run := runs[ri]
 		if run.world == nil {
@@ -377,6 +378,7 @@ func (c *checker) pair(p *pairCtx, wr **mvsfake.World) {
 			if !reachKeys[l] {
 				// a download of an unreachable node: the canonical-pair reduction would be unsound
 				t.Add("downloads-beyond-reachable", 1)
+				wrongDir = l
 			}
 		}
 		kind, detail := diff(got, ref.List)
@@ -388,6 +390,11 @@ func (c *checker) pair(p *pairCtx, wr **mvsfake.World) {
 		}
 		sig := "C10:" + kind
 		switch {
+		case wrongDir != "":
+			// cause: the resolver downloaded some other (directory, revision) in place of a
+			// reachable project version and read its requirements
+			sig = "C10:wrong-directory-downloaded"
+			detail += "; downloaded " + wrongDir + " (<repository>/<directory>@<revision>), which is no reachable project version"
 		case dup:
 			// cause: a project required under several names; which version wins must not depend
 			// on the order in which the requirement map happens to be iterated
